@@ -149,6 +149,7 @@ func cmdDeterminism(tab *SymTab, rd *os.File, bw *bufio.Writer, n, depth int, se
 	self, _ := os.Executable()
 	var hs []concreteHistory
 	first := map[int][]string{}
+	gid, ngen := 2_000_000, 0
 	for id := *firstHistory; id < *firstHistory+n; id++ {
 		h, d := recordHistory(tab, id, depth, seed)
 		hs = append(hs, h)
@@ -161,6 +162,14 @@ func cmdDeterminism(tab *SymTab, rd *os.File, bw *bufio.Writer, n, depth int, se
 		id := 1_000_000
 		for sc.Scan() {
 			rec, ok := parseLine(sc.Bytes())
+			if ok && rec["g"] != nil { // a genesis case (TLC-enumerated): initialising fresh chains from it must agree
+				gid++
+				if *onlyGiven == 0 || *onlyGiven == gid {
+					writeGenesisReplicas(tab, bw, gid, getm(rec, "g"))
+					ngen++
+				}
+				continue
+			}
 			if !ok || rec["init"] == nil {
 				continue
 			}
@@ -224,7 +233,43 @@ func cmdDeterminism(tab *SymTab, rd *os.File, bw *bufio.Writer, n, depth int, se
 		bw.Write(bz)
 		bw.WriteByte('\n')
 	}
-	fmt.Fprintf(os.Stderr, "determinism: %d histories x 9 replicas\n", len(hs))
+	fmt.Fprintf(os.Stderr, "determinism: %d histories x 9 replicas, %d genesis cases x %d fresh chains\n", len(hs), ngen, genesisReplicas)
+}
+
+const genesisReplicas = 40
+
+// genesisDigest initialises a fresh chain from the genesis case and digests what a validator would compare:
+// whether initialisation succeeded, the committed root hash, and the exported genesis bytes.
+func genesisDigest(tab *SymTab, g M) string {
+	inst := NewInstance(tab, true)
+	gs := inst.GenesisFromAbstract(g)
+	h := sha256.New()
+	res := guard(func() { inst.InitGenesisReal(gs) })
+	h.Write([]byte(res))
+	if res == "ok" {
+		h.Write(inst.Commit())
+		var exp []byte
+		h.Write([]byte(guard(func() { exp = inst.Mod.ExportGenesis(inst.ctx, inst.cdc) })))
+		h.Write(exp)
+	}
+	return hex.EncodeToString(h.Sum(nil))[:24]
+}
+
+// writeGenesisReplicas: many fresh chains from one genesis; "fresh_chains" reports a digest that differs from
+// the first one if any replica disagrees.
+func writeGenesisReplicas(tab *SymTab, bw *bufio.Writer, id int, g M) {
+	first := genesisDigest(tab, g)
+	other := first
+	for i := 1; i < genesisReplicas; i++ {
+		if d := genesisDigest(tab, g); d != first {
+			other = d
+			break
+		}
+	}
+	bz, _ := json.Marshal(M{"id": id, "kind": "det", "steps": 0, "g": g,
+		"replicas": M{"first": []string{first}, "fresh_chains": []string{other}}})
+	bw.Write(bz)
+	bw.WriteByte('\n')
 }
 
 func cmdDetChild(tab *SymTab, rd *os.File, bw *bufio.Writer) {
